@@ -10,7 +10,7 @@ import math
 import z3
 
 from pyvc.api import *
-from pyvc.tensor import STensor, F_EXP, F_LOG
+from pyvc.tensor import STensor, F_EXP, F_LOG, dim_z3
 from pyvc import num
 
 DIST = "leaspy.variables.distributions"
@@ -305,7 +305,68 @@ class ExpNegNLogNu(Spec):
         return res
 
 
-UNITS = [NormalNll(), NormalJac(), NormalBoth(), WeibullLogSurvival(), WeibullLogHazard(), WeibullNll(),
+class MixtureNormalNll(Spec):
+    """MixtureNormalFamily._nll(x, loc, scale, probs): the per-cluster Gaussian negative log-density of an individual value --
+    entry (i, c) = 1/2 ((x_i - loc_c) / scale_c)^2 + log(scale_c) + C for tau / xi (one location and scale per cluster), and
+    entry (i, k, c) = 1/2 ((x_ik - loc_kc) / scale)^2 + log(scale) + C for the sources (one location per source and cluster,
+    a common scale); the weight of x passed through."""
+    target = DIST + ":MixtureNormalFamily._nll"
+
+    def configs(self):
+        return [dict(var="tau-xi", clusters=2), dict(var="tau-xi", clusters=3), dict(var="sources", clusters=2)]
+
+    def setup(self, cx, cfg):
+        from leaspy.variables.distributions import MixtureNormalFamily
+        n, C = z3.Int("n_ind"), cfg["clusters"]
+        if cfg["var"] == "tau-xi":
+            x = STensor.sym(cx, "x", (n, 1))
+            loc, scale = STensor.sym(cx, "loc", (C,)), STensor.sym(cx, "scale", (C,))
+        else:
+            K = 2
+            x = STensor.sym(cx, "x", (n, K))
+            loc, scale = STensor.sym(cx, "loc", (K, C)), STensor.sym(cx, "scale", ())
+        probs = STensor.sym(cx, "probs", (C,))
+        xw = WT(x, None)
+        return dict(args=(MixtureNormalFamily, xw, loc, scale, probs), x=x, loc=loc, scale=scale, n=n, C=C, cls=MixtureNormalFamily)
+
+    def pre(self, cx, st):
+        s = st["scale"]
+        idx = s.fresh_idx(cx, "s")
+        pos = s.fn(idx) > 0
+        return [("scale > 0", z3.ForAll(list(idx), pos) if idx else pos), ("individuals", st["n"] >= 0)]
+
+    def post(self, cx, st, out):
+        r = out.value
+        ok = isinstance(r, SymObj) and isinstance(r.f.get("value"), STensor)
+        res = [("a weighted tensor", z3.BoolVal(ok))]
+        if not ok:
+            return res
+        val, x, loc, scale, C = r.f["value"], st["x"], st["loc"], st["scale"], st["C"]
+        Cst = z3.RealVal(repr(float(st["cls"].nll_constant_standard)))
+        res.append(("constant = 1/2 log(2 pi) (to single precision)", z3.BoolVal(abs(float(st["cls"].nll_constant_standard) - 0.5 * math.log(2 * math.pi)) < 1e-6)))
+        res.append(("weight of x passed through", z3.BoolVal(r.f["weight"] is None)))
+        i = z3.Int("i_m")
+        if st["cfg"]["var"] == "tau-xi":
+            res.append(("shape (individuals, clusters)", z3.BoolVal(val.ndim == 2) if val.ndim != 2 else z3.And(dim_z3(val.shape_[0]) == st["n"], dim_z3(val.shape_[1]) == C)))
+            if val.ndim == 2:
+                for c in range(C):
+                    se = scale.fn((z3.IntVal(c),))
+                    zz = (x.fn((i, z3.IntVal(0))) - loc.fn((z3.IntVal(c),))) / se
+                    res.append((f"cluster {c}: 1/2 ((x_i - loc_c)/scale_c)^2 + log(scale_c) + C",
+                                z3.ForAll([i], z3.Implies(z3.And(0 <= i, i < st["n"]), val.fn((i, z3.IntVal(c))) == 0.5 * zz * zz + F_LOG(se) + Cst))))
+        else:
+            res.append(("shape (individuals, sources, clusters)", z3.BoolVal(val.ndim == 3)))
+            if val.ndim == 3:
+                se = scale.fn(())
+                for k in range(2):
+                    for c in range(C):
+                        zz = (x.fn((i, z3.IntVal(k))) - loc.fn((z3.IntVal(k), z3.IntVal(c)))) / se
+                        res.append((f"source {k}, cluster {c}: Gaussian negative log-density",
+                                    z3.ForAll([i], z3.Implies(z3.And(0 <= i, i < st["n"]), val.fn((i, z3.IntVal(k), z3.IntVal(c))) == 0.5 * zz * zz + F_LOG(se) + Cst))))
+        return res
+
+
+UNITS = [MixtureNormalNll(), NormalNll(), NormalJac(), NormalBoth(), WeibullLogSurvival(), WeibullLogHazard(), WeibullNll(),
          ReparamNu(), ReparamNuSources(), ExpNegNLogNu()]
 CALLEES = []
 ASSUMPTIONS = [
